@@ -673,6 +673,52 @@ fn section_constructors(out: &mut Out) {
         show!(format!("Dual near_raw {}", i), DualFuzzyHash::new_from_internals_near_raw(*log, a, b));
         show!(format!("LongDual internals {}", i), LongDualFuzzyHash::new_from_internals(bs, a, b));
     }
+    // every byte value as a symbol, through the slice and the array constructors of every type
+    if !tiny() {
+        for v in 0..=255u8 {
+            let (a, b) = (vec![1u8, v, 2], vec![v]);
+            let mut x1 = [0u8; 64];
+            x1[..3].copy_from_slice(&a);
+            let (mut x2s, mut x2l) = ([0u8; 32], [0u8; 64]);
+            x2s[0] = v;
+            x2l[0] = v;
+            show!(format!("Raw sym {}", v), RawFuzzyHash::new_from_internals_near_raw(2, &a, &b));
+            show!(format!("LongRaw sym {}", v), LongRawFuzzyHash::new_from_internals(12, &a, &b));
+            show!(format!("Norm sym {}", v), FuzzyHash::new_from_internals(12, &a, &b));
+            show!(format!("LongNorm sym {}", v), LongFuzzyHash::new_from_internals_near_raw(2, &a, &b));
+            show!(format!("Dual sym {}", v), DualFuzzyHash::new_from_internals(12, &a, &b));
+            show!(format!("LongDual sym {}", v), LongDualFuzzyHash::new_from_internals_near_raw(2, &a, &b));
+            show!(format!("Raw rawsym {}", v), RawFuzzyHash::new_from_internals_raw(2, &x1, &x2s, 3, 1));
+            show!(format!("LongNorm rawsym {}", v), LongFuzzyHash::new_from_internals_raw(2, &x1, &x2l, 3, 1));
+        }
+    }
+    // position array initialisation with in- and out-of-contract lengths / symbols
+    {
+        use ssdeep::internal_comparison::{BlockHashPositionArray, BlockHashPositionArrayData, BlockHashPositionArrayImpl};
+        let sym = |n: usize| -> Vec<u8> { (0..n).map(|i| (i % 64) as u8).collect() };
+        let mut probes: Vec<Vec<u8>> = [0usize, 1, 7, 63, 64, 65, 128, 255, 256, 257, 320, 512, 65536, 65600].iter().map(|&n| sym(n)).collect();
+        for bad in [64u8, 128, 191, 192, 255] {
+            probes.push(vec![1, bad, 2]);
+        }
+        for (i, pr) in probes.iter().enumerate() {
+            let mut pa = BlockHashPositionArray::new();
+            pa.init_from(&[5, 6, 7]);
+            let r = catch_unwind(AssertUnwindSafe(|| pa.init_from(pr)));
+            out.line(format!("K pa_init {} len={} {} after: valid={} len={} {:?}", i, pr.len(), if r.is_ok() { "Ok" } else { "PANIC" }, pa.is_valid(), pa.len(), pa.representation()));
+        }
+    }
+    // Display / Debug of the error types, with and without format specs
+    {
+        let perr = FuzzyHash::from_bytes(b"3:@").unwrap_err();
+        let perr2 = LongDualFuzzyHash::from_bytes(b"5:A:B").unwrap_err();
+        out.line(format!("K errdisp [{}] [{:?}] [{:>50}] [{:.9}] [{}] [{}] [{:?}]", perr, perr, perr, perr, perr.kind(), perr.origin(), perr2));
+        for e in [GeneratorError::FixedSizeMismatch, GeneratorError::FixedSizeTooLarge, GeneratorError::InputSizeTooLarge, GeneratorError::OutputOverflow] {
+            out.line(format!("K errdisp gen [{}] [{:?}] [{:>44}] [{:.7}] {}", e, e, e, e, e.is_size_too_large_error()));
+        }
+        for e in [FuzzyHashOperationError::BlockHashOverflow, FuzzyHashOperationError::StringizationOverflow] {
+            out.line(format!("K errdisp op [{}] [{:?}] [{:^40}] [{:.3}]", e, e, e, e));
+        }
+    }
     for v in [3u32, 4, 0, 6, 7, u32::MAX] {
         let r = catch_unwind(|| block_size::log_from_valid(v));
         out.line(format!("K log_from_valid {} {:?}", v, r.ok()));
